@@ -53,8 +53,8 @@ PROPS = {
         "assumptions": COMMON_ASSUMPTIONS + ["LP answers and mirror_points results are oracles of the model; the replay feeds it the answers logged by the hooks (H1 LP log, H2 state trace); every logged Infeasible answer is checked exactly to be sound by a margin of 1e-6", "pruning is binary-only in the crate (K = 2)"],
     },
     "C05": {
-        "kinds": [("H05", 1500, 48000), ("C05M", 3000, 160000), ("C17R", 1500, 48000)],
-        "rule": "one operation history (1-8 steps, elimination/composition heavy); after every step each stored witness is checked exactly against its path polytope (1e-8 slack) and each node marked infeasible against an exact LP with margin 1e-6; kind C05M: mirror_points on random polytopes / start points / round limits against the exact model loop (normalised polytope taken from the dump, its rows checked to be the original rows divided by their Euclidean norm), returned points checked exactly against the polytope; kind C17R: remove_axes on trees that carry cached states (after infeasible_elimination): every cached state must be reset; non-trivial = at least 3 steps or a pruning step; distinct by case text",
+        "kinds": [("H05", 1500, 48000), ("C05M", 3000, 160000), ("C17R", 1500, 48000), ("H01", 400, 8000)],
+        "rule": "one operation history (1-8 steps, elimination/composition heavy); after every step each stored witness is checked exactly against its path polytope (1e-8 slack) and each node marked infeasible against an exact LP with margin 1e-6; kind C05M: mirror_points on random polytopes / start points / round limits against the exact model loop (normalised polytope taken from the dump, its rows checked to be the original rows divided by their Euclidean norm), returned points checked exactly against the polytope; kind H01: step-by-step distillation of random networks, one in eight with weights of magnitude 2^5..2^12 (solver vertices that fail the containment test and are repaired by the mirror heuristic); kind C17R: remove_axes on trees that carry cached states (after infeasible_elimination): every cached state must be reset; non-trivial = at least 3 steps or a pruning step; distinct by case text",
         "assumptions": COMMON_ASSUMPTIONS + ["LP answers and mirror_points results are oracles of the model; the replay feeds it the answers logged by the hooks (H1 LP log, H2 state trace); every logged Infeasible answer is checked exactly to be sound by a margin of 1e-6", "pruning is binary-only in the crate (K = 2)"],
     },
     "C06": {
